@@ -278,7 +278,7 @@ func cmdCheck(argv []string) {
 		if !ok {
 			continue
 		}
-		if r.Outcome == "done" && equalStrs(r.Labels, s.Labels) && equalStrs(r.Notes, cleanNotes(s.Notes)) {
+		if r.Outcome == "done" && equalStrs(r.Labels, s.Labels) && equalStrs(dropNative(r.Notes), cleanNotes(s.Notes)) {
 			validated++
 		} else {
 			diffBad++
@@ -420,6 +420,16 @@ func cleanNotes(ns []string) []string {
 	for _, n := range ns {
 		if strings.HasPrefix(n, "note: ") {
 			out = append(out, n[6:])
+		}
+	}
+	return out
+}
+
+func dropNative(ns []string) []string {
+	var out []string
+	for _, n := range ns {
+		if !strings.HasPrefix(n, "native: ") {
+			out = append(out, n)
 		}
 	}
 	return out
